@@ -7,7 +7,8 @@ import models
 from engine import VAdt, VBool, VInt, VOpaque, VRef, VSeq, VStruct, VTuple, VUnit, Event, base_ty, vcopy
 from specutil import is_variant, run_reference, vid_of
 
-LIST_BOUND = 3
+import os
+LIST_BOUND = 5 if os.environ.get("MIRSYM_TIER") == "thorough" else 3
 
 
 def m_eq(ex, callee, args, ret_ty, frame):
